@@ -21,7 +21,9 @@ Decided structurally from the serde-generated / hand-written Serialize code:
                        exactly their argument at the back, plural adders every element in order, setters store their
                        argument on every path, build() hands out every accumulated field untouched, new() starts
                        empty, data constructors (Provide, Require, ExecDProgramOutput, package descriptor references)
-                       carry their argument; unmodelled builder methods are UNPROVEN
+                       carry their argument; unmodelled builder methods are UNPROVEN.  All of it on the slots build()
+                       reads (private layout of the builders is free, C07_helpers.state_slots) and on literals with later
+                       field stores applied (C07_helpers.fold_updates)
 Not decided: that toml::to_string emits valid TOML 1.0 for every string payload and that an independent
 parser recovers it (property of the toml crate).
 """
